@@ -60,6 +60,7 @@ pub fn replay(prop: &str, part: &str, case: &serde_json::Value) -> Option<CaseRe
         ("C14", _) => c14::replay(part, case)?,
         ("C15", "level_after_drop") => c15::eval_after_drop(&sc()?),
         ("C15", _) => c15::eval(&sc()?),
+        ("C16", "synctest_misuse") => c13::replay(part, case)?,
         ("C16", _) => c16::replay(part, case)?,
         ("C17", _) => c17::eval(&sc()?),
         ("C18", _) => c18::eval(&sc()?),
